@@ -26,6 +26,7 @@ class Path:
         self.mic = cfg.mic + 10
         self.mch = MCH
         self.maxpdu = 500                # server-max-receive-pdu-size the meter announces
+        self.conf = 127                  # negotiated conformance the meter announces (mask over c20.CONF_NAMES)
 
     def seal(self, inner, ic=None):
         ic = self.next_ic() if ic is None else ic
@@ -42,10 +43,10 @@ class Path:
             title = MT if self.ciphered or mech == 5 else None
             chal = self.mch if mech == 5 else None
             if self.ciphered:
-                ct, ic = self.seal(f"init.127.{self.maxpdu}")
+                ct, ic = self.seal(f"init.{self.conf}.{self.maxpdu}")
                 ui = f"glo:{self.cfg.suite + 48}:{ic}:{ct}"
             else:
-                ui = f"init:127:{self.maxpdu}"
+                ui = f"init:{self.conf}:{self.maxpdu}"
             return ["recv", ["aare", str(res), "none" if mech is None else str(mech), title or "none", chal or "none", ui], None]
         if kind == "rlre":
             if self.ciphered:
@@ -182,6 +183,33 @@ class C03(fw.Prop):
                         pr = self.probes(q)[idx]
                     cont = [["send", "getReq", 1], ["send", "aarq", 1]]
                     yield self.make_case({"cfg": cfg.to_json(), "cfgname": name, "ops": b + [pr] + cont, "tag": "exhaustive-probe"})
+        # the state machine looks at the kind of an event only: the same verdicts for other field values of a kind (invoke-id,
+        # service class, priority, a selective-access descriptor, a response whose invoke-id is not the request's) and whatever
+        # conformance was negotiated
+        nconf = len(cl.CONF_NAMES)
+        sends = ["getReq@unconf", "setReq@unconf+id7", "actReq@unconf+low", "getNext@unconf", "getReq@sel", "getReq@id9+low", "setReq@id0",
+                 "actReq@id12", "getReq@sel+unconf"]
+        recvs = ["getRespNormal@id9", "getRespBlock@id3+low", "getRespLastBlock@id15", "setResp@id6", "actResp@id2", "getRespErr@id11+unconf",
+                 "actRespErr@id4", "getRespLastBlockErr@id8"]
+        for name, cfg0 in configs().items():
+            for conf in [0, (1 << nconf) - 1, 127] + [rng.getrandbits(nconf) for _ in range(3 if deep else 1)]:
+                for st in STATES:
+                    cfg = cl.Cfg.from_json(cfg0.to_json())
+                    if cfg.pre:
+                        cfg.conf = conf
+
+                    def path():
+                        q = Path(name, cfg)
+                        q.conf = conf
+                        return q
+                    if path().to_state(st) is None:
+                        continue
+                    for i in range(len(sends) + len(recvs)):
+                        q = path()
+                        b = q.to_state(st)
+                        pr = ["send", sends[i], 1] if i < len(sends) else q.resp(recvs[i - len(sends)])
+                        cont = [["send", "getReq", 1], q.resp("getRespNormal"), ["send", "aarq", 1]]
+                        yield self.make_case({"cfg": cfg.to_json(), "cfgname": name, "ops": b + [pr] + cont, "tag": "field-variants"})
         n = 1500 if deep else 60
         for _ in range(n):
             name = rng.choice(list(configs()))
